@@ -87,7 +87,19 @@ class W:
     from nowhere_to_be_found import init as __init__
 class WC(W): ...
 '''
-PARENTS = ["none", "module", "class", "function", "init", "property", "function-iter", "function-tuple", "function-gen-tuples", "function-gen-short", "class-init-unresolvable", "class-init-unresolvable-inherited"]
+# family A: every annotation text in every place a style reads an annotation from, under every parent
+ANNOTATIONS = ["int", "a.b", "list[int]", "int | None", "await x", "yield", "yield x", "lambda: 0", "x := 1", "*a", "1 +", "not a type", "'quoted'", "f(x)", "a if b else c",
+               "[i for i in y]", "", " ", "...", "None", "dict[str, (int, str)]", "a, b", "int, optional", "{1, 2}", "x[", ")", "a: b", "-> int", "typing.Literal['a b']",
+               "Generator[int, str, None]", "\\", "#", "a\tb", "0", "-1", "a.", ".a", "a..b", "async", "import x", "x = 1"]
+ANN_TEMPLATES = {
+    "google": ["Args:\n    a ({A}): desc", "Other Parameters:\n    k ({A}): desc", "Returns:\n    {A}: desc", "Returns:\n    name ({A}): desc", "Yields:\n    {A}: desc", "Receives:\n    {A}: desc",
+               "Raises:\n    {A}: desc", "Warns:\n    {A}: desc", "Attributes:\n    v ({A}): desc", "Args:\n    a ({A}, optional): desc"],
+    "numpy": ["Parameters\n----------\na : {A}\n    desc", "Other Parameters\n----------------\nk : {A}\n    desc", "Returns\n-------\n{A}\n    desc", "Returns\n-------\nname : {A}\n    desc",
+              "Yields\n------\n{A}\n    desc", "Receives\n--------\n{A}\n    desc", "Raises\n------\n{A}\n    desc", "Warns\n-----\n{A}\n    desc", "Attributes\n----------\nv : {A}\n    desc",
+              "Parameters\n----------\na : {A}, default 1\n    desc"],
+    "sphinx": [":param a: desc\n:type a: {A}", ":param {A} a: desc", ":returns: desc\n:rtype: {A}", ":raises {A}: desc", ":var v: desc\n:vartype v: {A}", ":ivar {A} v: desc", ":rtype: {A}", ":type a: {A}"],
+}
+PARENTS = ["module-fileless", "function-fileless", "class-fileless", "none", "module", "class", "function", "init", "property", "function-iter", "function-tuple", "function-gen-tuples", "function-gen-short", "class-init-unresolvable", "class-init-unresolvable-inherited"]
 
 # plan: list of ((tokens over the full alphabet, tokens after a header), option deviations); later entries only add what earlier ones lack
 _PLAN = {"quick": [((2, 2), 1)], "thorough": [((3, 3), 0), ((3, 2), 1), ((2, 2), 2)]}
@@ -95,7 +107,7 @@ _PLAN = {"quick": [((2, 2), 1)], "thorough": [((3, 3), 0), ((3, 2), 1), ((2, 2),
 
 def bounds(tier):
     return {"tokens": {k: len(v) for k, v in TOKENS.items()}, "plan": [{"max_len_full_alphabet": l[0], "max_tokens_after_header": l[1], "option_deviations": d} for l, d in _PLAN[tier]],
-            "parents": PARENTS}
+            "parents": PARENTS, "annotation_family": {"annotations": len(ANNOTATIONS), "templates": {k: len(v) for k, v in ANN_TEMPLATES.items()}}}
 
 
 def sequences(style, lens):
@@ -166,6 +178,13 @@ def _setup():
         "none": None, "module": mod, "class": mod["K"], "function": mod["f"], "init": mod["K.__init__"], "property": mod["K.prop"],
         "function-iter": mod["g"], "function-tuple": mod["h"], "function-gen-tuples": mod["g2"], "function-gen-short": mod["g3"], "class-init-unresolvable": mod["W"], "class-init-unresolvable-inherited": mod["WC"],
     }
+    # parents living in a module without a file (what inspection of a built-in / compiled module produces)
+    inmem = griffe.Module("inmemory")
+    inmem_f = griffe.Function("f", parameters=griffe.Parameters(griffe.Parameter("a", annotation="int")), returns="int")
+    inmem.set_member("f", inmem_f)
+    inmem_k = griffe.Class("K")
+    inmem.set_member("K", inmem_k)
+    parents.update({"module-fileless": inmem, "function-fileless": inmem_f, "class-fileless": inmem_k})
     defaults = {}
     for style, fn in (("google", google.parse_google), ("numpy", numpy.parse_numpy), ("sphinx", sphinx.parse_sphinx)):
         sig = inspect.signature(fn)
@@ -307,9 +326,57 @@ def run_shard(shard, tier):
         acc.case({"style": style, "text": text}, outcome=style + ":" + ("raise" if "raise" in outcomes else "ok"), nontrivial=nontrivial)
         acc.observe(sorted(outcomes))
         acc.counters["parses"] += len(env["parents"]) + 4 * (len(vectors) - 1)
+    if part == 0:
+        _run_annotations(env, acc, style, tier)
     if env["mod"].as_json(full=False) != mod_json0:
         acc.violation(f"mutated/parent/{style}", f"{style}: the parent objects' JSON changed while parsing (shard {part})", {"style": style, "shard": part})
     return acc.result()
+
+
+def _run_annotations(env, acc, style, tier):
+    g = env["griffe"]
+    fn = env["fns"][style]
+    defaults = env["defaults"][style]
+    vectors = [{n: (not defaults[n]) for n in ov} for ov in option_vectors(style, 1 if tier == "quick" else 2)]
+    for tpl in ANN_TEMPLATES[style]:
+        for ann in ANNOTATIONS:
+            for lead in ("Summary.\n\n", ""):
+                text = lead + tpl.replace("{A}", ann)
+                outcomes = set()
+                try:
+                    with sandbox.time_limit(20):
+                        for pname, parent in env["parents"].items():
+                            for opts in vectors:
+                                if opts and pname not in ("none", "function", "function-fileless", "property"):
+                                    continue
+                                case = {"style": style, "text": text, "parent": pname, "options": opts}
+                                ds = g.Docstring(text, lineno=1, parent=parent)
+                                value0 = ds.value
+                                try:
+                                    sections = fn(ds, **opts)
+                                except OffsetViolation as e:
+                                    acc.violation(f"offset/{str(e).split(':')[0]}", f"{style}: {e} on {text!r}", case, None, size=5)
+                                    continue
+                                except Exception as e:  # noqa: BLE001
+                                    import traceback
+
+                                    tb = traceback.extract_tb(e.__traceback__)
+                                    frame = next((f.name for f in reversed(tb) if "docstrings" in f.filename), tb[-1].name)
+                                    acc.violation(f"raise/{type(e).__name__}@{style}.{frame}", f"{style} parser raised {type(e).__name__}: {e} on {text!r} (parent={pname}, options={opts})", case, None,
+                                                  size=50 + len(opts))
+                                    outcomes.add("raise")
+                                    continue
+                                bad = _check_sections(env, sections)
+                                if bad:
+                                    acc.violation(f"{bad}/{style}", f"{style}: malformed section ({bad}) for {text!r}", case, None, size=5)
+                                if ds.value != value0:
+                                    acc.violation(f"mutated/docstring/{style}", f"{style}: docstring value changed by parsing {text!r}", case, None, size=5)
+                                outcomes.add(",".join(s.kind.value[:4] for s in sections))
+                                acc.counters["parses"] += 1
+                except sandbox.CaseTimeout:
+                    acc.violation(f"hang/{style}", f"{style}: no result within 20 s for {text!r}", {"style": style, "text": text}, None, size=5)
+                acc.case({"style": style, "text": text}, outcome=style + ":" + ("raise" if "raise" in outcomes else "ok"), nontrivial=True)
+                acc.observe(sorted(outcomes))
 
 
 def replay(case):
